@@ -683,6 +683,15 @@ class Exec:
         if isinstance(fv, VClass):
             return self.B.instantiate(st, fv.name, args, kwargs, starargs=starargs, starkw=starkw)
         if isinstance(fv, VBuiltin):
+            if fv.name == "type.dict" and starkw is not None and isinstance(starkw, VObj) and isinstance(st.obj(starkw), LDict) and starargs is None and len(args) == 1 and isinstance(args[0], VOpq):
+                # dict(mapping, **names): the names override the mapping
+                from .builtins_model import mget, mhas
+
+                base, kwd = args[0].t, st.obj(starkw)
+                ks = core.Key.ks
+                present = lambda k, kwd=kwd: z3.Or(kwd.present(k), z3.And(core.Key.is_KStr(k), mhas(base, ks(k))))
+                val = lambda k, kwd=kwd: core.vite(kwd.present(k), kwd.val(k), VOpq(mget(base, ks(k)), "other"))
+                return [Res(st, st.alloc(LDict(present, val, st.fresh("dlen", z3.IntSort()))))]
             if fv.name == "type.dict" and starkw is not None and isinstance(starkw, VOpq) and starargs is None:
                 f = z3.Function("dict_merge", core.Opq, core.Opq, core.Opq)
                 base = args[0].t if args and isinstance(args[0], VOpq) else z3.Const("py:emptydict", core.Opq)
